@@ -9,7 +9,7 @@ RULE = ("patterns BUILT from field lists for 7 types (padded/unpadded numerics, 
         "distinct key = (type, pattern shape, culture, outcome class)")
 ASSUMPTIONS = ["generator rules of DESIGN §3 C07 decide which values a pattern can represent", "culture data as loaded from ICU on this machine"]
 MIN_NT = {"quick": 2000, "thorough": 20000}
-REQUIRED = {"any": ["custom_roundtrips", "standard_patterns", "builtin_roundtrips", "idempotence", "determinism", "reformat_of_parsed_mutants", "case_length_patterns"]}
+REQUIRED = {"any": ["custom_roundtrips", "standard_patterns", "builtin_roundtrips", "idempotence", "determinism", "reformat_of_parsed_mutants", "case_length_patterns", "modifier_chains"]}
 
 DAY = 86400 * 10**9
 TYPES = ["LocalTime", "LocalDate", "LocalDateTime", "Offset", "Duration", "AnnualDate", "Instant"]
@@ -377,12 +377,68 @@ def run_prefix(ctx, limit):
     ctx.sample({"prefix_cultures": [c.name for c, _ in hits[:8]]})
 
 
+def run_modifiers(ctx, n):
+    """with_culture / with_two_digit_year_max / with_template_value applied in every order give the same pattern: same text, same parse,
+    and a two-digit year resolves by the documented window (century of the template year; one earlier when yy > max and century > 1)."""
+    import itertools
+    from pyoda_time import Instant, LocalDate, LocalDateTime, Offset
+    from pyoda_time._compatibility._culture_info import CultureInfo
+    from pyoda_time import text as T
+    from vf import textgen as G
+    from vf.ctx import exc_key
+    rng = ctx.rng
+    cults = G.cultures(rng, 10)
+    PATS = {"LocalDate": (T.LocalDatePattern, ["yy-MM-dd", "dd/MM/yy", "yy MM dd", "MM/dd/yy"]),
+            "LocalDateTime": (T.LocalDateTimePattern, ["yy-MM-dd HH:mm", "dd/MM/yy HH:mm:ss", "HH:mm yy MM dd"]),
+            "Instant": (T.InstantPattern, ["yy-MM-dd'T'HH:mm:ss", "dd/MM/yy HH:mm"])}
+    for it in range(n):
+        tname = rng.choice(list(PATS)); P, pts = PATS[tname]; pt = rng.choice(pts)
+        c = rng.choice(cults); M = rng.choice([0, 99, 30, 29, 31, 50, 80, rng.randint(0, 99)])
+        tY = rng.choice([2000, 1999, 2100, 1950, 2345, 1900, rng.randint(1801, 2900)])
+        tv_date = LocalDate(tY, rng.randint(1, 12), rng.randint(1, 28))
+        tv = tv_date if tname == "LocalDate" else (tv_date.at_midnight() if tname == "LocalDateTime" else tv_date.at_midnight().with_offset(Offset.zero).to_instant())
+        mods = [("culture", lambda p: p.with_culture(c)), ("two_digit_year_max", lambda p: p.with_two_digit_year_max(M)), ("template", lambda p: p.with_template_value(tv))]
+        case = {"kind": "modifiers", "type": tname, "pattern": pt, "culture": c.name, "max": M, "template_year": tY}
+        try:
+            base = P.create_with_invariant_culture(pt)
+            built = []
+            for perm in itertools.permutations(mods):
+                q = base
+                for _, f in perm: q = f(q)
+                built.append(("->".join(nm for nm, _ in perm), q))
+        except Exception as e:  # noqa: BLE001
+            ctx.exc(e); V(ctx, f"modifier-raised:{tname}:{exc_key(e)}", f"{tname} pattern {pt!r}: applying {[m for m, _ in mods]} raised {e!r}", case, repr(e)); continue
+        cen = tY // 100
+        for yy in {0, 99, M, (M + 1) % 100, rng.randrange(100), rng.randrange(100)}:
+            y = (cen - 1 if (yy > M and cen > 1) else cen) * 100 + yy
+            d = LocalDate(y, rng.randint(1, 12), rng.randint(1, 28))
+            v = d if tname == "LocalDate" else (d.at_midnight().plus_minutes(rng.randrange(1440)) if tname == "LocalDateTime" else d.at_midnight().plus_minutes(rng.randrange(1440)).with_offset(Offset.zero).to_instant())
+            ctx.ev(); ctx.count("modifier_chains"); ctx.key(("modifiers", tname, pt, yy > M, cen > 20))
+            texts = {}; parsed = {}
+            for nm, q in built:
+                try:
+                    t = q.format(v); r = q.parse(t)
+                    texts[nm] = t; parsed[nm] = r.value if r.success else ("failed", str(r.exception)[:80])
+                except Exception as e:  # noqa: BLE001
+                    ctx.exc(e); texts[nm] = parsed[nm] = ("raised", repr(e)[:80])
+            if len(set(map(repr, texts.values()))) != 1:
+                V(ctx, f"modifier-order:{tname}", f"{tname} pattern {pt!r}, culture {c.name}, max {M}, template year {tY}: formatting {srepr(v)} depends on the order the modifiers were applied in: {texts}", case)
+            bad = {nm: srepr(x) for nm, x in parsed.items() if not (x == v)}
+            if bad:
+                V(ctx, f"modifier-two-digit-year:{tname}", f"{tname} pattern {pt!r}, culture {c.name}, two_digit_year_max {M}, template year {tY}: {srepr(v)} (yy={yy}, inside the window) formats as {next(iter(texts.values()))!r} but parses back as {bad}", case)
+        q = built[0][1]
+        if getattr(q, "two_digit_year_max", M) != M or getattr(q, "template_value", tv) != tv:
+            V(ctx, f"modifier-accessors:{tname}", f"two_digit_year_max/template_value accessors report {getattr(q, 'two_digit_year_max', None)!r}/{getattr(q, 'template_value', None)!r}", case)
+
+
 def run(ctx, shard):
     for k in REQUIRED["any"] + ["generated_pattern_rejected", "create_raised_other", "prefix_cultures_found", "case_length_cultures_found", "case_length_patterns"]:
         ctx.counters.setdefault(k, 0)
     t = shard["type"]
     if t == "prefix": run_prefix(ctx, shard["limit"])
-    elif t == "builtin": run_builtin(ctx, shard["n"])
+    elif t == "builtin":
+        run_builtin(ctx, shard["n"])
+        run_modifiers(ctx, max(60, shard["n"] // 10))
     elif t == "standard": run_standard(ctx, shard["cultures"], shard["i"], shard["k"])
     else: run_type(ctx, t, shard["cultures"], shard["patterns"])
 
